@@ -116,7 +116,7 @@ def build(kind, text, variables, semantics=None, io_types=None, consts=None, sub
     if unit is not None:
         spec.unit = unit
     if period is not None:
-        spec.set_sampling_period(*period)
+        spec.set_sampling_period(*period)       # (value, unit[, tolerance]); (value,) leaves the unit to its default, seconds
     spec.spec = text
     if parse:
         spec.parse()
